@@ -463,8 +463,8 @@ impl Sim for DenseSim {
 
     fn plan(_prop: &str, tier: Tier) -> Vec<Phase> {
         match tier {
-            Tier::Quick => vec![Phase { name: "histories", count: 200_000, exhaustive: false }],
-            Tier::Thorough => vec![Phase { name: "histories", count: 5_000_000, exhaustive: false }],
+            Tier::Quick => vec![Phase { name: "histories", count: 1_500_000, exhaustive: false }],
+            Tier::Thorough => vec![Phase { name: "histories", count: 30_000_000, exhaustive: false }],
         }
     }
 
@@ -565,6 +565,10 @@ impl Sim for DenseSim {
 
     fn required_probes(_prop: &str, _tier: Tier) -> Vec<&'static str> {
         vec!["realloc-moved-a-live-matrix"]
+    }
+
+    fn components(_prop: &str) -> (Vec<String>, Vec<String>) {
+        (vec!["lightmotif::dense (DenseMatrix, Row, iterators)".into()], vec!["allocator (SimAlloc)".into()])
     }
 
     fn assumptions(_prop: &str) -> Vec<String> {
